@@ -1379,9 +1379,14 @@ impl ASN1Value {
                 if matches![**value, ASN1Value::ElsewhereDeclaredValue { .. }] =>
             {
                 if let ASN1Value::ElsewhereDeclaredValue { identifier, .. } = &**value {
+                    // the enumeral of the governing type, if that is known and defines it
                     if let Some((_, tld)) = tlds
                         .iter()
-                        .find(|(_, tld)| tld.has_enum_value(None, identifier))
+                        .find(|(_, tld)| tld.has_enum_value(type_name, identifier))
+                        .or_else(|| {
+                            tlds.iter()
+                                .find(|(_, tld)| tld.has_enum_value(None, identifier))
+                        })
                     {
                         **value = ASN1Value::EnumeratedValue {
                             enumerated: tld.name().clone(),
@@ -1394,7 +1399,11 @@ impl ASN1Value {
             (ASN1Type::Enumerated(_), ASN1Value::ElsewhereDeclaredValue { identifier, .. }) => {
                 if let Some((_, tld)) = tlds
                     .iter()
-                    .find(|(_, tld)| tld.has_enum_value(None, identifier))
+                    .find(|(_, tld)| tld.has_enum_value(type_name, identifier))
+                    .or_else(|| {
+                        tlds.iter()
+                            .find(|(_, tld)| tld.has_enum_value(None, identifier))
+                    })
                 {
                     *self = ASN1Value::EnumeratedValue {
                         enumerated: tld.name().clone(),
